@@ -30,6 +30,14 @@ def prop_types(full):
         ("literal", {"kind": "literal", "value": {"properties": [
             {"name": "first", "type": B("string")}, {"name": "secondValue", "type": OR(B("uinteger"), B("null"))},
             {"name": "third", "type": B("boolean"), "optional": True}]}}),
+        # added after the fifth wave: a map keyed by an open enumeration; an anonymous literal with a string-literal
+        # member and a camelCase null-admitting member (a general `or` of several literals is outside the statement's
+        # edit discipline - property types are base, reference, array, map, tuple or T|null - and the dotnet plugin's
+        # naming scheme indeed has no name for the second literal of such a union)
+        ("map-open-enum-key", {"kind": "map", "key": R("CodeActionKind"), "value": B("string")}),
+        ("literal-with-literal-member", {"kind": "literal", "value": {"properties": [
+            {"name": "kind", "type": {"kind": "stringLiteral", "value": "computed"}}, {"name": "providerName", "type": B("string")},
+            {"name": "scopeUri", "type": OR(B("DocumentUri"), B("null"))}]}}),
     ]
     more = [
         ("integer", B("integer")), ("decimal", B("decimal")), ("DocumentUri", B("DocumentUri")), ("URI", B("URI")),
@@ -161,6 +169,37 @@ def e3_inheritance(doc, full):
     d = copy.deepcopy(doc)
     _struct(d, LEAF)["extends"] = [R("WorkDoneProgressOptions")]
     out.append(("existing leaf %s gains extends WorkDoneProgressOptions" % LEAF, "E3:leaf-gains-extends", d))
+    # ---- added after the fifth wave: deeper and wider hierarchies
+    d = copy.deepcopy(doc)
+    d["structures"].append({"name": "VerifTopReport", "properties": [{"name": "kind", "type": B("string")}, {"name": "resultId", "type": B("string"), "optional": True},
+                                                                     {"name": "count", "type": B("integer")}]})
+    d["structures"].append({"name": "VerifMidReport", "properties": [{"name": "kind", "type": {"kind": "stringLiteral", "value": "mid"}}, {"name": "resultId", "type": B("string")},
+                                                                     {"name": "count", "type": B("uinteger")}], "extends": [R("VerifTopReport")]})
+    d["structures"].append({"name": "VerifLeafReport", "properties": [{"name": "note", "type": B("string"), "optional": True}], "extends": [R("VerifMidReport")]})
+    d["notifications"].append({"method": "verif/leafReport", "typeName": "VerifLeafReportNotification", "params": R("VerifLeafReport"), "messageDirection": "serverToClient"})
+    out.append(("three-level chain whose middle structure narrows kind to a literal, makes resultId required and count unsigned; the leaf is a notification's params",
+                "E3:chain-narrowing+E5", d))
+    d = copy.deepcopy(doc)
+    d["structures"].append({"name": "VerifLevelOne", "properties": [{"name": "levelOne", "type": B("string"), "optional": True}],
+                            "extends": [R("TextDocumentRegistrationOptions")], "mixins": [R("WorkDoneProgressOptions")]})
+    for i, (nm, prev) in enumerate((("VerifLevelTwo", "VerifLevelOne"), ("VerifLevelThree", "VerifLevelTwo"), ("VerifLevelFour", "VerifLevelThree"))):
+        d["structures"].append({"name": nm, "properties": [{"name": "level%d" % (i + 2), "type": B("uinteger"), "optional": True}], "extends": [R(prev)]})
+    d["notifications"].append({"method": "verif/levelFour", "typeName": "VerifLevelFourNotification", "params": R("VerifLevelFour"), "messageDirection": "clientToServer"})
+    out.append(("four-level extends chain on top of TextDocumentRegistrationOptions with a mixin at its root; the deepest structure is a notification's params",
+                "E3:chain-depth-4+E5", d))
+    d = copy.deepcopy(doc)
+    d["structures"].append({"name": "VerifWindowBase", "properties": [{"name": "limit", "type": B("uinteger")}]})
+    d["structures"].append({"name": "VerifCursorBase", "properties": [{"name": "limit", "type": B("string")}, {"name": "cursor", "type": B("string"), "optional": True}]})
+    d["structures"].append({"name": "VerifWindowQuery", "properties": [{"name": "windowOnly", "type": B("boolean"), "optional": True}], "extends": [R("VerifWindowBase")]})
+    d["structures"].append({"name": "VerifCursorQuery", "properties": [{"name": "cursorOnly", "type": B("boolean"), "optional": True}], "extends": [R("VerifCursorBase")]})
+    d["structures"].append({"name": "VerifPagedQuery", "properties": [], "extends": [R("VerifWindowQuery"), R("VerifCursorQuery")]})
+    out.append(("structure with two parents that each inherit a differently declared `limit` from their own base", "E3:two-lineages", d))
+    d = copy.deepcopy(doc)
+    d["structures"].insert(0, {"name": "VerifDiamond", "properties": [{"name": "own", "type": B("string"), "optional": True}],
+                               "extends": [R("VerifDiamondLeft"), R("VerifDiamondRight")]})
+    d["structures"].append({"name": "VerifDiamondLeft", "properties": [{"name": "left", "type": B("string"), "optional": True}], "mixins": [R("WorkDoneProgressOptions")]})
+    d["structures"].append({"name": "VerifDiamondRight", "properties": [{"name": "right", "type": B("string"), "optional": True}], "mixins": [R("WorkDoneProgressOptions")]})
+    out.append(("diamond: a structure listed FIRST whose two parents (listed last) both mix in WorkDoneProgressOptions", "E3:diamond-listed-first", d))
     if full:
         d = copy.deepcopy(doc)
         d["structures"].append({"name": "VerifOverride", "properties": [{"name": "position", "type": R("Range")}], "extends": [R(BASE)]})
@@ -178,6 +217,10 @@ def e4_enums(doc, full):
         d["enumerations"].append({"name": "VerifNewEnum", "type": B(base), "values": [{"name": n, "value": v} for n, v in vals]})
         _struct(d, LEAF)["properties"].append({"name": "verifKind", "type": R("VerifNewEnum"), "optional": True})
         out.append(("new closed %s enumeration used by a new property" % bl, "E4:new-%s" % bl, d))
+    d = copy.deepcopy(doc)
+    d["enumerations"].append({"name": "VerifCompletionItemKind", "type": B("uinteger"), "values": [{"name": "one", "value": 1}, {"name": "two", "value": 2}]})
+    _struct(d, LEAF)["properties"].append({"name": "verifKind", "type": R("VerifCompletionItemKind"), "optional": True})
+    out.append(("new closed enumeration whose name ends with the name of a customised open one (CompletionItemKind)", "E4:new-closed-resembling-name", d))
     d = copy.deepcopy(doc)
     _enum(d, "MarkupKind")["values"].append({"name": "VerifValue", "value": "verifvalue"})
     out.append(("value appended to closed enumeration MarkupKind", "E4:append-closed", d))
@@ -206,10 +249,12 @@ def e5_messages(doc, full):
         ("request no typeName, no params, result null", {"method": "verif/ping", "result": B("null"), "messageDirection": "serverToClient"}),
         ("request no typeName, params ref, result T|null, registration options", {"method": "verif/maybeThing", "params": R("HoverParams"), "result": OR(R("Hover"), B("null")), "registrationOptions": R("HoverRegistrationOptions"), "messageDirection": "both"}),
         ("request no typeName, method ends in Request", {"method": "verif/confirmRequest", "params": R("HoverParams"), "result": B("null"), "messageDirection": "serverToClient"}),
+        ("request typeName with Request inside", {"method": "verif/requestPermission", "typeName": "VerifRequestPermissionRequest", "params": R("HoverParams"), "result": R("Hover"), "messageDirection": "clientToServer"}),
     ]
     if full:
         reqs += [
             ("request typeName, result array", {"method": "verif/listThings", "typeName": "VerifListThingsRequest", "params": R("HoverParams"), "result": ARR(R("Location")), "messageDirection": "clientToServer", "documentation": "Lists things.", "since": "3.18.0", "proposed": True}),
+            ("request no typeName, method starts with request", {"method": "verif/requestAccess", "params": R("HoverParams"), "result": B("null"), "messageDirection": "both"}),
             ("request typeName without Request suffix", {"method": "verif/odd", "typeName": "VerifOdd", "params": R("HoverParams"), "result": R("Hover"), "messageDirection": "clientToServer"}),
             ("request with partial result", {"method": "verif/partial", "typeName": "VerifPartialRequest", "params": R("HoverParams"), "result": OR(ARR(R("Location")), B("null")), "partialResult": ARR(R("Location")), "messageDirection": "clientToServer"}),
         ]
